@@ -232,6 +232,20 @@ def handleE (E : EOps) (raw : Bool) : List String → String
           | none => "err"
         | none => "-"
       | _ => "bad-op"
+    | "bytes" =>
+      match rest with
+      | [o, h] =>
+        match (if o.all Char.isDigit && !o.isEmpty then o.toNat? else none), unhex h with
+        | some off, some bs =>
+          if off ≥ 64 then "bad-op"
+          else
+            match ExtBytes.bytesAsWords E.I E.n bs with
+            | none => "err"
+            | some ws =>
+              if off % E.I.bytes ≠ 0 then "err"
+              else s!"ok {ws.length / E.n} {hexOf (ExtBytes.asBytes E.I ws)}"
+        | _, _ => "-"
+      | _ => "bad-op"
     | "tryfrom" =>
       match rest.head?.bind u128? with
       | some v =>
